@@ -2,6 +2,7 @@
 SPECIFICATION Spec
 CONSTANTS
   MaxRR = 2
+  ChainDepths = {1, 2, 9, 10, 11, 12, 25, 40}
 INVARIANT Realizable
 INVARIANT SectionsOrdered
 INVARIANT Emit
